@@ -1,6 +1,98 @@
-(* placeholder *)
+(* Model/Monitor_C02.v — C02 "replica logs agree on every committed offset",
+   evaluated on the implementation's observations alone (every voter's Load with all
+   indexes after every step; entry ids interned by digest; the table gives each entry's
+   index and the id of its predecessor).
+
+   After every step, for all voters whose store could be read:
+     chain      the log is an unbroken predecessor hash chain from genesis: entry k sits at
+                index k and names entry k-1 as predecessor;                              (code 1)
+     bounds     committed <= log end;                                                     (code 1)
+     monotone   committed did not move backwards in this step;                            (code 1)
+     agreement  any two voters hold the same entry at every offset <= both committed watermarks.
+   A disagreement is code 2 (known finding C02-K1) only when, at that offset, one of the two
+   entries is an acknowledged entry that an Install matching the C01-K1 signature dropped
+   (held by fewer than WriteQuorum of the voters that answered that Install's probe) — the
+   deposed leader checkpointed it; any other disagreement is code 1. *)
 From WK Require Import Base.Base.
 From WK Require Export Model.ReplicaLog Model.QuorumLog Model.Cluster.
 Open Scope N_scope.
+
+Record c02_state := C02State { cb_acked : list (N * N); cb_down : list N; cb_k1 : list (N * N) }.
+
+Fixpoint acked_at2 (l : list (N * N)) (idx : N) : option N :=
+  match l with
+  | [] => None
+  | (i, id) :: rest => if i =? idx then Some id else acked_at2 rest idx
+  end.
+Definition countb2 {A} (f : A -> bool) (l : list A) : N := lenN (filter f l).
+Definition holds2 (full : list (N * robs)) (w : N) (p : N * N) : bool :=
+  obs_id_at (get_robs full w) (fst p) =? snd p.
+Definition worse2 (a b : N) : N :=
+  if (a =? 1) || (b =? 1) then 1 else if (a =? 0) then b else a.
+
+(* bookkeeping of acknowledged entries and of the entries dropped by C01-K1 installs *)
+Definition c02_track (cfg : qconfig) (st : c02_state) (prev : list (N * robs))
+           (s : qop * qres * list (N * robs)) : c02_state :=
+  let '(op, res, full) := s in
+  let vs := voters_of cfg in
+  match op, res with
+  | OCommit node _ _ _ _ _, RReceipt _ _ first last _ =>
+      let leader := get_robs full node in
+      let new := map (fun i => (i, obs_id_at leader i)) (seqN first (N.to_nat (last + 1 - first))) in
+      C02State (filter (fun p => match acked_at2 (cb_acked st) (fst p) with Some _ => false | None => true end) new
+                ++ cb_acked st) (cb_down st) (cb_k1 st)
+  | OInstall node _ _ _ f, RInstalled _ _ _ =>
+      let lost := filter (fun p => negb (holds2 full node p)) (cb_acked st) in
+      let responders := node :: filter (fun w => negb (w =? node) && negb (memN w (cb_down st)) &&
+                                                 negb (memN w (fl_drop f))) vs in
+      let k1 := filter (fun p => countb2 (fun w => holds2 prev w p) responders <? cf_quorum cfg) lost in
+      C02State (filter (fun p => holds2 full node p) (cb_acked st)) (cb_down st) (k1 ++ cb_k1 st)
+  | ODown node, _ => C02State (cb_acked st) (node :: filter (fun v => negb (v =? node)) (cb_down st)) (cb_k1 st)
+  | OUp node, _ => C02State (cb_acked st) (filter (fun v => negb (v =? node)) (cb_down st)) (cb_k1 st)
+  | _, _ => st
+  end.
+
+(* code of the agreement clause for one pair of voters *)
+Fixpoint pair_agreement (k1 : list (N * N)) (a b : robs) (idx : N) (count : nat) : N :=
+  match count with
+  | O => 0
+  | S c =>
+      let x := obs_id_at a idx in let y := obs_id_at b idx in
+      let here := if x =? y then 0
+                  else if existsb (fun p => (fst p =? idx) && ((snd p =? x) || (snd p =? y))) k1 then 2 else 1 in
+      worse2 here (pair_agreement k1 a b (idx + 1) c)
+  end.
+
+Fixpoint all_pairs_agreement (k1 : list (N * N)) (os : list robs) : N :=
+  match os with
+  | [] => 0
+  | a :: rest =>
+      worse2 (fold_left (fun acc b =>
+                 if ro_err a || ro_err b then acc
+                 else worse2 acc (pair_agreement k1 a b 1 (N.to_nat (N.min (ro_hw a) (ro_hw b))))) rest 0)
+             (all_pairs_agreement k1 rest)
+  end.
+
+Definition c02_check (cfg : qconfig) (tab : list ent) (st : c02_state) (prev full : list (N * robs)) : N :=
+  let vs := voters_of cfg in
+  let local_ok :=
+    forallb (fun v => let o := get_robs full v in let o0 := get_robs prev v in
+               obs_chain_ok tab o && (ro_err o || (ro_hw o <=? ro_leo o)) &&
+               (ro_err o || ro_err o0 || (ro_hw o0 <=? ro_hw o))) vs in
+  if negb local_ok then 1
+  else all_pairs_agreement (cb_k1 st) (map (get_robs full) vs).
+
+Fixpoint c02_run (cfg : qconfig) (tab : list ent) (st : c02_state) (prev : list (N * robs))
+         (steps : list (qop * qres * list (N * robs))) : N :=
+  match steps with
+  | [] => 0
+  | s :: rest =>
+      let st' := c02_track cfg st prev s in
+      worse2 (c02_check cfg tab st' prev (snd s)) (c02_run cfg tab st' (snd s) rest)
+  end.
+
+Definition c02_code (cfg : qconfig) (tab : list ent) (steps : list (qop * qres * list (N * robs))) : N :=
+  c02_run cfg tab (C02State [] [] []) [] steps.
+
 Definition C02_mismatch : qcase -> bool := q_mismatch.
-Definition C02_monitor (c : qcase) : N := 0.
+Definition C02_monitor (c : qcase) : N := c02_code (cs_cfg c) (cs_tab c) (expand_steps [] (cs_steps c)).
